@@ -59,7 +59,8 @@ def exhaustive_ops(n, idx):
   idx, ai = divmod(idx, len(a))
   ei = idx
   ops = [("node",)] * n + [("edge", x, y) for x, y in e[ei]]
-  ops += [("var",), ("var",), ("bind0", 0, 0), ("bind0", 0, 1), ("bind0", 1, 2)]
+  # creation order x0, y0, x1: the two bindings of x do not get neighbouring binding ids
+  ops += [("var",), ("var",), ("bind0", 0, 0), ("bind0", 1, 2), ("bind0", 0, 1)]
   X0, X1, Y0 = (0, 0), (0, 1), (1, 0)
   for me, others, choice in ((X0, (X1, Y0), a[ai]), (X1, (X0, Y0), b[bi]), (Y0, (X0, X1), c[ci])):
     env = {"p": others[0], "q": others[1]}
@@ -105,13 +106,17 @@ def random_ops(rng, general):
   rng.shuffle(edges)
   ops += [("edge", a, b) for a, b in edges]
   addrs = []
-  d = 0
+  order = []
   for v in range(nv):
     ops.append(("var",))
-    for bi in range(rng.choice([1, 2, 2, 3])):
-      ops.append(("bind0", v, d))
-      d += 1
-      addrs.append((v, bi))
+    order += [v] * rng.choice([1, 2, 2, 3])
+  if rng.random() < 0.6:
+    rng.shuffle(order)      # binding ids of one variable are then not neighbours (ids are program-global)
+  made = [0] * nv
+  for d, v in enumerate(order):
+    ops.append(("bind0", v, d))
+    addrs.append((v, made[v]))
+    made[v] += 1
   for me in addrs:
     if rng.random() < 0.07:
       continue            # a binding without any origin
